@@ -34,6 +34,11 @@ type ordEval struct {
 	// callee resolves a call to a pure helper (params, body); nil = calls are outside the fragment
 	callee func(call *ast.CallExpr) ([]types.Object, *ast.BlockStmt)
 	depth  int
+	// inl follows `return helper(args)` into the helper's body with its parameters replaced by the
+	// arguments (operands keep their spelling, so side() and the forced conditions still apply)
+	inl *inliner
+	// sels: values of selector expressions on locals bound to a table entry ("f.width")
+	sels map[string]int64
 }
 
 func (e *ordEval) fail(format string, a ...interface{}) {
@@ -69,6 +74,10 @@ func (e *ordEval) evalInt(x ast.Expr) int64 {
 	switch v := x.(type) {
 	case *ast.Ident:
 		if n, ok := e.ints[e.info.ObjectOf(v)]; ok {
+			return n
+		}
+	case *ast.SelectorExpr:
+		if n, ok := e.sels[stripSpaces(types.ExprString(v))]; ok {
 			return n
 		}
 	case *ast.UnaryExpr:
@@ -262,6 +271,17 @@ func (e *ordEval) run(list []ast.Stmt) (ordResult, bool) {
 			if len(v.Results) != 1 {
 				e.fail("return with %d results", len(v.Results))
 				return ordResult{}, true
+			}
+			if call, ok := ast.Unparen(v.Results[0]).(*ast.CallExpr); ok && e.inl != nil && e.depth < 4 {
+				if body := e.inl.Body(call); body != nil {
+					e.depth++
+					res, ret := e.run(body.List)
+					e.depth--
+					if !ret {
+						e.fail("helper %s falls off its end", types.ExprString(call.Fun))
+					}
+					return res, true
+				}
 			}
 			if b, ok := e.info.TypeOf(v.Results[0]).Underlying().(*types.Basic); ok && b.Info()&types.IsBoolean != 0 {
 				return ordResult{isBool: true, b: e.evalBool(v.Results[0])}, true
